@@ -179,47 +179,35 @@ impl<'a> Ctx<'a> {
         }
         let mid = &rec[pre.len()..rec.len() - post.len()];
         let app = self.appended.get(&seq).cloned().unwrap_or_default();
-        // every recovered entry must be an appended one, in append order
-        let mut j = 0;
-        for e in mid {
-            let mut found = false;
-            let mut jj = j;
-            while jj < app.len() {
-                jj += 1;
-                let a = &app[jj - 1];
-                if same(a, e) {
-                    found = true;
-                    break;
-                }
+        // every recovered entry must be the appended one at the same position of the file
+        // (damage keeps the layout or ends recovery), bit-identical in every field
+        for (i, e) in mid.iter().enumerate() {
+            let a = app.get(i);
+            if a.map(|a| same(a, e)).unwrap_or(false) {
+                continue;
+            }
+            if let Some(a) = a {
                 if !a.validate() && a.data == e.data && a.timestamp == e.timestamp {
                     // the entry was APPENDED with a wrong stored checksum (pub fields, no check in
                     // release builds) and the damage happened to repair it: payload and stamp are
                     // what was appended
                     self.out.count("excluded:damage-repaired-a-wrong-appended-checksum");
-                    found = true;
-                    break;
+                    continue;
                 }
             }
-            if found {
-                j = jj;
-            }
-            if !found {
-                let class = if app.iter().any(|a| a.data == e.data && a.checksum == e.checksum && a.timestamp != e.timestamp) {
-                    "timestamp-not-covered".to_string()
-                } else if e.data.is_empty() && e.timestamp == 0 && e.checksum == 0 {
-                    "zero-entry".to_string()
-                } else if app.iter().any(|a| same(a, e)) {
-                    format!("{}:out-of-order", kind)
-                } else {
-                    format!("{}:foreign", kind)
-                };
-                self.out.violation(
-                    &format!("C10:only-appended:{}", class),
-                    &format!("recovery returned an entry that was never appended to this file: stamp {} crc {} data {}", e.timestamp, e.checksum, hex(&e.data)),
-                    replay.clone(),
-                );
-                return;
-            }
+            let class = if a.map(|a| a.data == e.data && a.checksum == e.checksum && a.timestamp != e.timestamp).unwrap_or(false) {
+                "timestamp-not-covered".to_string()
+            } else if e.data.is_empty() && e.timestamp == 0 && e.checksum == 0 {
+                "zero-entry".to_string()
+            } else {
+                format!("{}:foreign", kind)
+            };
+            self.out.violation(
+                &format!("C10:only-appended:{}", class),
+                &format!("recovery returned an entry that was never appended at this position of the file: stamp {} crc {} data {}", e.timestamp, e.checksum, hex(&e.data)),
+                replay.clone(),
+            );
+            return;
         }
         if kind == "truncate" {
             let it = &self.intact[&seq];
